@@ -48,6 +48,7 @@ type Sched struct {
 	byGid   map[int64]*Thr
 	Threads map[string]*Thr
 	ParkOn  func(label string) bool
+	ParkOnT func(thread, label string) bool // optional per-thread filter (overrides ParkOn when set)
 	Adopt   map[string]string // label -> thread name to adopt an unregistered goroutine reaching it (e.g. loop.start)
 	Timeout time.Duration
 	free    bool // hooks pass through (teardown)
@@ -105,7 +106,14 @@ func (s *Sched) yield(label, arg string) {
 		}
 	}
 	s.mu.Unlock()
-	if t == nil || (s.ParkOn != nil && !s.ParkOn(label)) {
+	if t == nil {
+		return
+	}
+	if s.ParkOnT != nil {
+		if !s.ParkOnT(t.Name, label) {
+			return
+		}
+	} else if s.ParkOn != nil && !s.ParkOn(label) {
 		return
 	}
 	t.events <- parkEv{label: label, arg: arg}
